@@ -6,7 +6,7 @@ import hashlib
 
 VERIF = os.path.dirname(os.path.dirname(os.path.abspath(__file__)))
 KNOWN_FILE = os.path.join(VERIF, 'KNOWN_FINDINGS.txt')
-REPLAY_DIR = os.path.join(VERIF, 'replays')
+REPLAY_DIR = os.environ.get('MOSMC_REPLAY_DIR') or os.path.join(VERIF, 'replays')
 
 
 def load_known():
